@@ -17,7 +17,8 @@ RULE = ("case = generated enum (gapless / with holes, every repr) x generated le
         "(fn(&str)->Option<E>), as_str (fn(E)->&'static str), into (fn(E)->R), iter (fn()->It), range (fn(E,E)->It), "
         "names (fn()->Names), trait-bound assertions TryFrom<R, Error=()>, FromStr<Err=()>, From<E> for R, From<E> for "
         "&'static str, Debug + Display, and Iterator<Item=T> + DoubleEndedIterator + ExactSizeIterator + FusedIterator "
-        "for both structs. Oracle: compiles. non-trivial = configuration not among the pinned suite's; distinct by "
+        "for both structs; plus a small-scope enumeration of every feature subset of size <= 2 (quick) / <= 3 (thorough) x "
+        "every mode on 9 fixed shapes with the same ascriptions. Oracle: compiles. non-trivial = configuration not among the pinned suite's; distinct by "
         "(configuration, shape, repr)")
 
 PROFILE = S.profile(renames=0.1, dups=0.0, attrs=0.1, sizes=[("small", 95), ("medium", 5)])
@@ -95,7 +96,43 @@ HELPERS = """
 """
 
 
+def fixed_cases(tier):
+    return [{"small_scope": 3 if tier == "thorough" else 2}]
+
+
+def run_small_scope(case):
+    """Ascription probes for every feature subset of size <= k x every mode on the fixed shapes."""
+    import concurrent.futures
+    from . import common as C
+    out = J.Outcome()
+    jobs = []
+    for name, r, vals in C.SCOPE_SHAPES + C.SCOPE_SHAPES_EXTRA[:1]:
+        spec = C.scope_spec(r, vals)
+        m = M.RefEnum(spec)
+        cfgs = C.scope_configs(case["small_scope"], m.gapless)
+        items = []
+        for i, c in enumerate(cfgs):
+            lines = ascriptions(spec, c)
+            body = E.enum_item_text(spec, c) + HELPERS + "    pub fn sig() {\n" + "\n".join("        " + l for l in lines) + "\n    }"
+            items.append((i, body))
+        out.count("small_scope_configs", len(items))
+        for b in range(0, len(items), 300):
+            jobs.append((name, cfgs, items[b:b + 300]))
+    with concurrent.futures.ThreadPoolExecutor(max_workers=16) as ex:
+        results = list(ex.map(lambda j: (j, C.failing_items(j[2])), jobs))
+    for (name, cfgs, _items), bad in results:
+        for i, err in bad[:2]:
+            out.violate("a generated item does not have its documented signature (small-scope enumeration)", shape=name,
+                        config=J.cfg_text(cfgs[i]), stderr=err)
+    out.nontrivial = True
+    out.fingerprint = J.fp("small_scope", case["small_scope"])
+    out.sample = {"small_scope_max_features": case["small_scope"], "shapes": [n for n, _r, _v in C.SCOPE_SHAPES]}
+    return out
+
+
 def run_case(case):
+    if "small_scope" in case:
+        return run_small_scope(case)
     out = J.Outcome()
     spec, cfg = dict(case["spec"]), case["cfg"]
     spec["ident"] = "E"
